@@ -419,8 +419,13 @@ def job_ground_float(ctx: Ctx):
             bad[f"addition theorem l={l}"] = dict(sum=lhs, expected=rhs)
     # both implementations on polar angles outside [0, pi] (and azimuths outside [0, 2 pi])
     th2, ph2 = np.array([0.3, 1.2, 4.0, -2.0, 7.5, -0.4]), np.array([-0.5, 4.0, 5.5, -2.0, 7.0, 9.0])
-    a2 = np.asarray(ut.generate_real_spherical_harmonics(5, th2, ph2), float)
+    a2 = np.asarray(ut.generate_real_spherical_harmonics(5, th2.copy(), ph2.copy()), float)
     b2 = np.asarray(ut.generate_real_spherical_harmonics_scipy(5, th2, ph2), float)
+    th2_copy, ph2_copy = th2.copy(), ph2.copy()
+    a3 = np.asarray(ut.generate_real_spherical_harmonics(5, th2, ph2), float)       # the recursion again, after the SciPy-based call saw the same arrays
+    if not (np.array_equal(th2, th2_copy) and np.array_equal(ph2, ph2_copy)) or not np.allclose(a3, a2, atol=1e-12):
+        bad["SciPy-based call leaves the caller's angle arrays (and hence a later evaluation on them) unchanged"] = dict(theta_after=th2.tolist(), theta_before=th2_copy.tolist())
+        th2, ph2 = th2_copy, ph2_copy
     if not np.all(np.isfinite(a2)) or not np.allclose(a2, b2, atol=1e-9):
         rows = np.where(np.max(np.abs(a2 - b2), axis=1) > 1e-9)[0].tolist()
         bad["implementations agree for polar angles outside [0, pi]"] = dict(max_abs_difference=float(np.nanmax(np.abs(a2 - b2))), rows_differing=rows[:12], polar_angles=ph2.tolist())
